@@ -35,7 +35,11 @@ StNow == [k \in 1 .. (NB + 1) |-> IF (k - 1) \in DOMAIN rows THEN rows[k - 1].st
 \* a node that has not been sent `sendheaders` (the engine only sends it once it is level with the node) is never followed
 Conv == ~conn \/ nbest = 0 \/ (nbest \in Stored /\ rows[Tip].height >= HOf(nbest))
 Why == IF Conv THEN "" ELSE IF ign THEN "X1-inv-ignored" ELSE "unexplained"
-Final == [st |-> StNow, tip |-> Tip, bestoff |-> IF conn THEN nbest ELSE -1, best |-> IF conn /\ nbest # 0 THEN <<nbest>> ELSE <<>>, conv |-> Conv, why |-> Why]
+\* C13 at the protocol level, experimental engine: at the end the node asks for everything after genesis.  The answer owed is
+\* Chain!GetHeaders; handleGetHeadersMsg sits behind the same never-set flag as the inv handler (listed finding X1): no answer.
+ServedX == IF "X1-inv-ignored" \in Findings THEN [sent |-> FALSE, ids |-> <<>>] ELSE [sent |-> TRUE, ids |-> GetHeaders({0}, -1, 2000)]
+Final == [st |-> StNow, tip |-> Tip, bestoff |-> IF conn THEN nbest ELSE -1, best |-> IF conn /\ nbest # 0 THEN <<nbest>> ELSE <<>>, conv |-> Conv, why |-> Why,
+          served |-> ServedX]
 Scn == [par |-> [b \in 1 .. NB |-> ParV[b]], cps |-> SetToSeq(CpsV), forbid |-> SetToSeq(Forbid), cap |-> Cap, name |-> Scenario, findings |-> SetToSeq(Findings)]
 EmitInv == (Emit = "paths" /\ Terminal) => PrintT(ToJson([hist |-> hist, scn |-> Scn, final |-> Final]))
 ConvergesOrListed == Terminal => (Why = "" \/ Why \in Findings)
